@@ -1,4 +1,5 @@
 import Driver.Util
 import Driver.SemDrv
 import Driver.SchedDrv
+import Driver.LifeDrv
 import Driver.Main
